@@ -1,3 +1,5 @@
+//go:build verif && !no_c20
+
 package main
 
 import (
